@@ -278,7 +278,7 @@ def run(ctx):
     for ci, cfg in enumerate(cfgs):
         for spec in (shapes if (not ctx.quick or ci in (0, 4)) else shapes[ci % 5::5]):
             jobs.append(('point', cfg, spec, ctx.scale))
-        for spec in g.ZERO_SHAPES + g.EARLY_SHAPES + g.WORDS_SHAPES + g.TEXTNUM_SHAPES + g.INF_SHAPES:
+        for spec in g.ZERO_SHAPES + g.EARLY_SHAPES + g.WORDS_SHAPES + g.TEXTNUM_SHAPES + g.INF_SHAPES + g.BOOL_SHAPES:
             if not ctx.quick or ci in (0, 3, 5) or spec[0] == 4:
                 jobs.append(('point', cfg, spec, ctx.scale))
         for spec in ((4, 'guessable', 'numeric'), (7, 'user-alternating', 'both')):
